@@ -36,6 +36,7 @@ type c29Scenario struct {
 	CacheMode   int     `json:"cache_mode"` // 0 none, 1 fingerprint SessionCache + CacheKey, 2 Config.ClientSessionCache
 	Force       bool    `json:"force_suites"`
 	ServerName  string  `json:"server_name"`
+	Second      string  `json:"second,omitempty"` // a second connection re-uses the same ClientFingerprintConfiguration object with this Config.ServerName
 	ClockOffset int     `json:"clock_offset_s"` // simulated seconds that pass before the client starts
 	Net         NetCfg  `json:"net"`
 	Tape        []int   `json:"tape,omitempty"`
@@ -65,6 +66,9 @@ func genC29(seed uint64, tier string) any {
 		sc.Suites = append(sc.Suites, uint16(r.Intn(65536))) // arbitrary code point, allowed with ForceSuites
 	}
 	sc.ServerName = serverName
+	if r.Chance(1, 3) {
+		sc.Second = dnsNameOfLen([]int{9, 20, 63, 100, 253}[r.Intn(5)])
+	}
 	kinds := []string{"null", "sni", "sni_auto", "alpn", "reneg", "ems", "status", "sct", "curves", "points", "ticket", "ticket_auto", "sigalgs"}
 	ne := r.Range(0, 9)
 	used := map[string]bool{}
@@ -257,32 +261,47 @@ func execC29(t *testing.T, scAny any, keepLog bool) *Outcome {
 			ccfg.ClientSessionCache = tls.NewLRUClientSessionCache(4)
 			o.count("probe.config_session_cache", 1)
 		}
-		cn, sn := s.Pipe("c", "s", sc.Net.params(), sc.Net.params())
-		client := tls.Client(cn, ccfg)
-		server := tls.Server(sn, scfg)
-		var cErr, sErr error
-		var tStart, tEnd time.Time
-		s.Go("client", func() {
-			if sc.ClockOffset > 0 {
-				s.Sleep(time.Duration(sc.ClockOffset) * time.Second)
-			}
-			tStart = s.Now()
-			client.SetDeadline(s.Now().Add(20 * time.Second))
-			cErr = client.Handshake()
-			tEnd = s.Now()
-			client.Close()
-		})
-		s.Go("server", func() {
-			sErr = server.Handshake()
-			server.Close()
-		})
 		s.MaxTime = 40 * 366 * 24 * time.Hour
-		s.Run()
-		for _, p := range s.Panics() {
-			o.Fail = Failf("c29.panic", panicSite(p.Stack), "task %s panicked before/while sending a fingerprinted ClientHello: %v\n%s", p.Name, p.PanicVal, p.Stack)
+		connect := func(label string, ccfg *tls.Config, csc *c29Scenario) {
+			cn, sn := s.Pipe("c"+label, "s"+label, sc.Net.params(), sc.Net.params())
+			client := tls.Client(cn, ccfg)
+			server := tls.Server(sn, scfg)
+			var cErr, sErr error
+			var tStart, tEnd time.Time
+			s.Go("client"+label, func() {
+				if sc.ClockOffset > 0 {
+					s.Sleep(time.Duration(sc.ClockOffset) * time.Second)
+				}
+				tStart = s.Now()
+				client.SetDeadline(s.Now().Add(20 * time.Second))
+				cErr = client.Handshake()
+				tEnd = s.Now()
+				client.Close()
+			})
+			s.Go("server"+label, func() {
+				sErr = server.Handshake()
+				server.Close()
+			})
+			s.Run()
+			for _, p := range s.Panics() {
+				o.Fail = Failf("c29.panic", panicSite(p.Stack), "task %s panicked before/while sending a fingerprinted ClientHello: %v\n%s", p.Name, p.PanicVal, p.Stack)
+			}
+			if o.Fail == nil {
+				o.Fail = c29Check(csc, cn, server, crand, tStart, tEnd, cErr, sErr, o)
+			}
 		}
-		if o.Fail == nil {
-			o.Fail = c29Check(sc, cn, server, crand, tStart, tEnd, cErr, sErr, o)
+		connect("", ccfg, sc)
+		if o.Fail == nil && sc.Second != "" && sc.CacheMode == 0 {
+			// the same fingerprint object serves another connection to another host
+			c2 := ccfg.Clone()
+			c2.ServerName = sc.Second
+			sc2 := *sc
+			sc2.ServerName = sc.Second
+			o.count("probe.fingerprint_reused_for_second_host", 1)
+			connect("2", c2, &sc2)
+			if o.Fail != nil {
+				o.Fail.Msg = "second connection re-using the fingerprint configuration: " + o.Fail.Msg
+			}
 		}
 		if o.Fail == nil && (len(s.Deadlock) > 0 || s.StepCapHit) {
 			o.Fail = Failf("c29.stuck", "tasks did not finish", "deadlock=%v", s.Deadlock)
@@ -467,7 +486,7 @@ func init() {
 		Real:   []string{"ClientFingerprintConfiguration.marshal and every built-in extension encoder", "client handshake start-up with a fingerprint (session loading)", "zcrypto's ClientHello parser on the server side"},
 		Stub:   []string{"transport", "clock (time.Now via synctest bubble)", "entropy (recorded seeded reader)", "harness extension encoders written from the RFCs"},
 		Assume: []string{"one host name per SNI extension, at most one extension per type (RFC 6066 / RFC 8446 4.2)", "signature_algorithms restricted to RSA/DSA code points, which CheckImplemented accepts"},
-		FaultKinds: []string{"probe.timestamp_checked", "probe.fresh_random_checked", "probe.extension_block_compared", "probe.server_readback_compared", "probe.fingerprint_session_cache", "probe.config_session_cache", "probe.server_rejected_hello"},
+		FaultKinds: []string{"probe.timestamp_checked", "probe.fresh_random_checked", "probe.extension_block_compared", "probe.server_readback_compared", "probe.fingerprint_session_cache", "probe.config_session_cache", "probe.server_rejected_hello", "probe.fingerprint_reused_for_second_host"},
 		NotInjected: "fault-free by design: the property is about what is sent; clock position and entropy are the varied environment",
 		Gen:         genC29, New: func() any { return &c29Scenario{} }, Exec: execC29, Shrink: shrinkC29,
 		QuickRuns: 12000, ThoroughRuns: 1000000,
